@@ -3,6 +3,7 @@
 //@strip-attrs derive|non_exhaustive|error :: thiserror's derive output and its helper attributes are outside Verus; the enum's variants and fields are kept
 // Unit c11: bindgroup::get_bind_group_data against the complete C11 contract.
 #![feature(allocator_api)]
+#![recursion_limit = "4096"]
 #![allow(unused_imports, unused_variables, unused_mut, dead_code, unused_braces, unused_parens)]
 use vstd::prelude::*;
 use vstd::std_specs::iter::IteratorSpec;
